@@ -82,7 +82,12 @@ def run(ctx):
     n_s = 2 if ctx.tier == 'quick' else 16
     for k in range(n_s):
         sc = energy.gen_scene(ctx.rng, small=True, multi_dir=(k % 2 == 1), att_zero=False,
+                              kinds=['extremes'] if k % 2 == 0 else None,
                               n_bands=int(ctx.rng.integers(2, 7 if ctx.tier != 'quick' else 4)))
+        sc['K'] = max(sc['K'], 2)
+        if k % 2 == 0 and sc['tables'] is None:
+            # a wall that is fully absorbing in the FIRST band only
+            sc['absorption'][int(ctx.rng.integers(0, 6)), 0] = 1.0
         r = c03.stagewise(ctx, sc)
         pipeline.corr_collect(ctx, r, sc['recs'][0])
         check_bands(ctx, sc)
